@@ -150,14 +150,15 @@ def coq_eval(mod, terms, work, tag, what='failures'):
         base, ts = shards[k]
         fn = os.path.join(work, 'cases_%s_%d.v' % (tag, k))
         rc, out = run_file(fn, ts, SHARD_TIMEOUT)
-        if rc in (124, 137) or 'Out of memory' in out or 'Stack overflow' in out:
+        resource = lambda rc_, out_: rc_ != 0 and (rc_ in (124, 137, 139, -9, -11) or 'Out of memory' in out_ or 'Stack overflow' in out_ or 'Error' not in out_)
+        if resource(rc, out):
             # the shard did not finish within its budget: evaluate its cases one by one; a case that still does not finish gets
             # code 98 (the judge could not be evaluated on this observation - the correspondence is not established for it)
             res = []
             for j, t in enumerate(ts):
                 fj = os.path.join(work, 'cases_%s_%d_%d.v' % (tag, k, j))
                 rcj, outj = run_file(fj, [t], CASE_TIMEOUT)
-                if rcj in (124, 137) or 'Out of memory' in outj or 'Stack overflow' in outj:
+                if resource(rcj, outj):
                     res.append((base + j, 98))
                 elif rcj != 0:
                     raise RuntimeError('coqc failed on %s:\n%s' % (fj, outj[-3000:]))
